@@ -804,12 +804,23 @@ func r6DeviateAddAll(w *World, r *Report, rule string) {
 // r6DerivedUnionMembers (R13.13): a type derived from a union may not list
 // member types of its own.
 func r6DerivedUnionMembers(w *World, r *Report, rule string) {
-	f := w.SSAFunc(w.Method("compile", "Compiler", "getTypes"))
+	f := c16UnionMembersFunc(w)
 	cerr := w.SSAFunc(w.Method("compile", "Compiler", "error"))
-	if f == nil || cerr == nil || len(f.Params) < 2 {
-		panic(undecided{"Compiler.getTypes / Compiler.error"})
+	if cerr == nil {
+		panic(undecided{"Compiler.error"})
 	}
-	base := f.Params[1]
+	// the base union: the parameter of the interface type Union
+	var base *ssa.Parameter
+	for _, prm := range f.Params {
+		if nt, ok := prm.Type().(*types.Named); ok && nm(nt.Obj()) == "Union" {
+			if _, isI := nt.Underlying().(*types.Interface); isI {
+				base = prm
+			}
+		}
+	}
+	if base == nil {
+		panic(undecided{"getTypes: the base union parameter"})
+	}
 	sym := NewSym(w)
 	sym.Expand = false
 	isLenOfMembers := func(v ssa.Value) bool {
